@@ -3,10 +3,35 @@
 use crate::life::{self, Case, Weights};
 use vcore::{Ctx, Outcome};
 
-fn eval(case: &Case, prefix: &str, nontrivial: &dyn Fn(&life::RunResult) -> bool) -> Outcome {
-    let r = life::run_case(case);
+pub(crate) fn eval(case: &Case, prefix: &str, nontrivial: &dyn Fn(&life::RunResult) -> bool) -> Outcome {
+    let r = life::run_case_focus(case, Some(prefix));
     if let Some((sig, detail)) = r.fails.iter().find(|(s, _)| s.starts_with(prefix)) {
         return Outcome::fail(sig.clone(), detail.clone());
+    }
+    if prefix == "C06:" {
+        // "nor counted": once a behaviour denied a connection, the counters and peer views (the C02 fold, which never
+        // includes a denied connection) must keep agreeing with the history
+        if let Some(k) = r.fails.iter().position(|(s, _)| s.starts_with("C02:")) {
+            let (sig, detail) = &r.fails[k];
+            let at = r.fail_at.get(k).cloned().unwrap_or(u64::MAX);
+            let denied: Vec<String> = r
+                .log
+                .iter()
+                .filter(|x| x.seq < at)
+                .filter_map(|x| match &x.entry {
+                    simswarm::probe::Entry::PendingIn { conn, denied: true } => Some(format!("PendingIn:{conn}")),
+                    simswarm::probe::Entry::PendingOut { conn, denied: true, .. } => Some(format!("PendingOut:{conn}")),
+                    simswarm::probe::Entry::EstIn { conn, denied: true, .. } => Some(format!("EstIn:{conn}")),
+                    simswarm::probe::Entry::EstOut { conn, denied: true, .. } => Some(format!("EstOut:{conn}")),
+                    _ => None,
+                })
+                .collect();
+            if !denied.is_empty() {
+                let at_est = denied.iter().any(|d| d.starts_with("Est"));
+                let sig6 = if at_est { "C06:counters-or-peer-views-wrong-after-established-stage-denial" } else { "C06:counters-or-peer-views-wrong-after-pending-stage-denial" };
+                return Outcome::fail(sig6, serde_json::json!({"denied_so_far": denied, "disagreement": sig, "detail": detail}));
+            }
+        }
     }
     if !r.settled {
         return Outcome::Inconclusive("world did not settle within the round bound".into());
@@ -51,6 +76,23 @@ fn eval(case: &Case, prefix: &str, nontrivial: &dyn Fn(&life::RunResult) -> bool
     }
     if f.close_with_pending_same_peer > 0 {
         labels.push("close_with_pending_same_peer");
+    }
+    for (n, l) in [
+        (f.role_override_dials, "role_override_dial"),
+        (f.role_override_established, "role_override_established"),
+        (f.cond_false, "condition_false"),
+        (f.cond_false_by_role_override_dial, "condition_false_by_role_override_dial"),
+        (f.cond_true, "condition_true"),
+        (f.unknown_peer_dial_failed, "unknown_peer_dial_failed_while_pending"),
+        (f.disconnect_dialing, "disconnect_dialing"),
+        (f.disconnect_after_resolution, "disconnect_after_resolution"),
+        (f.disconnect_with_result_queued, "disconnect_with_result_queued"),
+        (f.queued_result_then_established, "queued_result_then_established"),
+        (f.queued_result_then_aborted, "queued_result_then_aborted"),
+    ] {
+        if n > 0 {
+            labels.push(l);
+        }
     }
     Outcome::pass_l(nontrivial(&r), labels)
 }
